@@ -31,6 +31,7 @@ type ComputeIn struct {
 	Min        *int   `json:"min,omitempty"`
 	Freq       *int   `json:"freq,omitempty"`
 	UseWithIt  bool   `json:"use_with_iterations,omitempty"` // Max==Min passed through WithIterations
+	Repeat     int    `json:"repeat,omitempty"`              // extra runs on the very same input objects before the observed one
 	Fuel       int    `json:"fuel"`
 	WatchdogMs int    `json:"watchdog_ms"`
 }
@@ -197,6 +198,21 @@ func runCompute(parent context.Context, in *ComputeIn) (obs ComputeObs) {
 	}
 	if in.Freq != nil {
 		opts = append(opts, basic.WithCheckFreq(*in.Freq))
+	}
+	for i := 0; i < in.Repeat; i++ { // a pure function of its inputs: earlier calls must not matter
+		func() {
+			defer func() { _ = recover() }()
+			var st basic.FlatTailStats
+			o2 := append([]basic.ComputeOpt{}, opts...)
+			o2 = append(o2, basic.WithFlatTailStats(&st))
+			if resIn != nil {
+				o2 = append(o2, basic.WithResultIn(&sparse.Vector{Dim: *in.ResultDim}))
+			}
+			_, _ = basic.Compute(ctx, c, p, float64(in.A), float64(in.E), o2...)
+		}()
+		if fc, ok := ctx.(*fuelCtx); ok {
+			fc.n.Store(0)
+		}
 	}
 	start := time.Now()
 	var t *sparse.Vector
@@ -387,6 +403,13 @@ func randGraph(r *Rng, n int) (Mat, Vec, string) {
 			for k := 0; k < r.Intn(4); k++ {
 				add(i, r.Intn(n), r.Pos())
 			}
+		}
+	}
+	if r.Chance(25) { // a peer whose only entries are explicit zeros (as a gRPC update with zero values leaves behind)
+		i := r.Intn(n)
+		m.Rows[i] = nil
+		for k := 0; k < 1+r.Intn(2); k++ {
+			add(i, r.Intn(n), 0)
 		}
 	}
 	for i := range m.Rows {
